@@ -90,3 +90,90 @@ func vc_C16_interval_overlap() {
 	x := vfReal("x")
 	vfAssert(vfImplies(vfAnd(vfAnd(a0 <= x, x <= a1), vfAnd(b0 <= x, x <= b1)), got), "a common point implies Overlap")
 }
+
+// C16-U3: Union2D's box-pruned Evaluate equals EvaluateSlow for n operands.
+// Compositional: Box2.MinMaxDist2 is replaced by its contract (an interval
+// [lo,hi], 0 <= lo <= hi; U1 proves the real function computes exactly the
+// nearest/farthest squared distances), operands are probe leaves under
+//   K2: lo > 0 (point outside the box)  =>  v >= 0 and v^2 >= lo
+//   K4: v > 0  =>  v^2 <= hi            (a non-empty exact shape is no farther than its box's farthest point)
+//   KE: same point, same value.
+func vfUnionPrune(n int, blend int) {
+	vfTimeouts(3000, 20000)
+	var ops []SDF2
+	var ls []*vfLeaf2
+	for i := 0; i < n; i++ {
+		l := vfNewLeaf2("op"+string(rune('0'+i)), vfKE)
+		ls = append(ls, l)
+		ops = append(ops, l)
+	}
+	var lo, hi []float64
+	vfStub("(github.com/deadsy/sdfx/sdf.Box2).MinMaxDist2", func(b Box2, p v2.Vec) Interval {
+		k := len(lo)
+		l, h := vfRealN("box.lo", k), vfRealN("box.hi", k)
+		vfAssume(l >= 0)
+		vfAssume(l <= h)
+		vfAssume(h <= 1e6)
+		lo, hi = append(lo, l), append(hi, h)
+		return Interval{l, h}
+	})
+	u := Union2D(ops...).(*UnionSDF2)
+	k := vfPosParam("k", 10)
+	switch blend {
+	case 1:
+		u.SetMin(PolyMin(k))
+	case 2:
+		u.SetMin(RoundMin(k))
+	}
+	p := vfPoint2("p")
+	fast := u.Evaluate(p)
+	slow := u.EvaluateSlow(p)
+	vfAssert(len(lo) == n, "one box interval per operand")
+	for i, l := range ls {
+		for j := range l.v {
+			v := l.v[j]
+			vfAssume(vfImplies(lo[i] > 0, vfAnd(v >= 0, v*v >= lo[i])))
+			vfAssume(vfImplies(v > 0, v*v <= hi[i]))
+		}
+	}
+	vfReach("union2d")
+	if blend == 0 {
+		vfAssert(vfNearF(fast, slow), "Union2D pruned evaluation returns the value of exhaustive evaluation (default minimum)")
+	} else {
+		vfAssert(vfIff(fast < 0, slow < 0), "Union2D pruned evaluation agrees with exhaustive evaluation on inside/outside (blend function)")
+	}
+}
+
+func vc_C16_union2d_prune() {
+	vfUnionPrune(2+vfCase("n", 3), 0)
+}
+
+func vt_C16_union2d_prune_n5() {
+	vfUnionPrune(5, 0)
+}
+
+
+// C16-U4 through the public API: two translated circles joined with the
+// polynomial blend; pruned and exhaustive evaluation must agree on
+// inside/outside.
+func vc_C16_union2d_blend_circles() {
+	vfTimeouts(3000, 20000)
+	r0, r1 := vfPosParam("r0", 10), vfPosParam("r1", 10)
+	vfAssume(r0 >= 0.05)
+	vfAssume(r1 >= 0.05)
+	c0, e0 := Circle2D(r0)
+	c1, e1 := Circle2D(r1)
+	vfAssume(e0 == nil)
+	vfAssume(e1 == nil)
+	t0, t1 := v2.Vec{X: vfBounded("c0.x"), Y: 0}, v2.Vec{X: vfBounded("c1.x"), Y: 0}
+	u := Union2D(Transform2D(c0, Translate2d(t0)), Transform2D(c1, Translate2d(t1))).(*UnionSDF2)
+	k := vfPosParam("k", 10)
+	vfAssume(k >= 0.01)
+	u.SetMin(PolyMin(k))
+	p := v2.Vec{X: vfBounded("p.x"), Y: 0}
+	fast := u.Evaluate(p)
+	slow := u.EvaluateSlow(p)
+	vfReach("circles")
+	tol := vfTol(1e-3, 1e-6)
+	vfAssert(vfNot(vfAnd(fast > tol, slow < -tol)), "Union2D with PolyMin: pruned evaluation never reports outside where exhaustive evaluation reports inside")
+}
